@@ -4,5 +4,5 @@ CONSTANTS
   MaxK = 4
   Vals = {0, 1, 2}
   KVals = {1, 2}
-INVARIANTS Inv_RowEqualsSum Inv_ReverseTwice
+INVARIANTS Inv_RowEqualsSum Inv_ReverseTwice Inv_BoxIsWindowSum
 CHECK_DEADLOCK FALSE
